@@ -28,10 +28,17 @@ Outcomes: pandas raising on the concatenated frame -> ``ctx.reject``; dask raisi
 Labels.  A failing pipeline is shrunk: shortest failing prefix, then greedy removal of earlier steps while pandas
 still accepts the program and the symptom stays the same.  Then the minimal program is re-run on the same rows as a
 single partition and as ``from_pandas(npartitions=3)`` to obtain a layout predicate.  Label =
-``<family of the first non-projection step>[><family of the last step>]:<layout predicate>:<symptom>``; symptom is the
-facet reported by compare (kind / columns / dtype / length / index / values / name / categories) or
-``ExcType@Class.method`` of the innermost frame inside dask/dataframe.  Layout predicates: ``any-layout`` (fails
-with one partition too), ``npartitions>1``, ``empty-partition``, ``unknown-divisions``, ``layout-specific``.
+``<culprit>:<layout predicate>:<facet>`` for value differences and ``<culprit>:<exception site>`` for exceptions; culprit
+= the step of the minimal program with the most structure (second operand > frame-level binary op / where > apply >
+astype / fillna / clip / isin > assign > filter > series op > rename > projection; for series steps and single-step
+programs with the outermost expression node in brackets); facet is the one reported by compare (kind / columns /
+dtype / length / index / values / name / categories); exception site is ``ExcType@Class.method`` of the innermost
+frame inside dask/dataframe, ``ExcType@compute`` for errors raised by pandas inside a task, or
+``meta-generation-ExcType`` ("Failed to generate metadata").  Layout predicates: ``any-layout`` (fails
+with one partition too), ``npartitions>1`` (fails with from_pandas(npartitions=3) too), ``layout-specific``.  One
+mechanism is recognised explicitly: when the dask value equals pandas applied to each input partition separately
+(but not pandas on the whole frame) the label is ``partition-wise-evaluation:...:<facet>`` (pandas' own
+value-dependent inference, e.g. int -> float upcast only in the partitions where a NaN/inf appears).
 
 Calibration (unchanged tree)
 ----------------------------
@@ -96,7 +103,7 @@ PENDING = {}
 
 def cases(tier, seed):
     rng = random.Random(seed * 2654435761 % (2 ** 31) + 36)
-    n = 3600 if tier == "quick" else 48000
+    n = 2000 if tier == "quick" else 36000
     for _ in range(n):
         yield {"cs": rng.randrange(2 ** 31)}
 
@@ -150,7 +157,7 @@ def site_of(exc):
     """ExcType@Class.method of the innermost traceback frame inside dask/dataframe (else innermost dask frame)."""
     import os
 
-    from vf.core.ctx import REPO, exc_label
+    from vf.core.ctx import REPO
 
     root = os.path.join(REPO, "dask", "dataframe") + os.sep
     best = None
@@ -167,8 +174,12 @@ def site_of(exc):
                 owner = loc["cls"].__name__
             best = "%s.%s" % (owner, code.co_name) if owner else "%s:%s" % (os.path.basename(fn), code.co_name)
         tb = tb.tb_next
+    if "Failed to generate metadata" in str(exc):
+        return "meta-generation-%s" % type(exc).__name__
+    if "Mismatched divisions between multiple Blockwise dependencies" in str(exc):
+        return "AssertionError@Blockwise._divisions(mismatched-divisions)"
     if best is None:
-        return exc_label(exc)
+        return "%s@compute" % type(exc).__name__
     return "%s@%s" % (type(exc).__name__, best)
 
 
@@ -206,6 +217,20 @@ def run_pair(desc, pdf, ddf, opdf=None, oddf=None, upto=None, want_value=False):
             return "exc", site_of(e), {"exc": e, "message": "%s: %s" % (type(e).__name__, str(e)[:300]),
                                        "traceback": "".join(traceback.format_exception(type(e), e, e.__traceback__))[-2500:]}
     m = F.compare(val, exp, ordered=True)
+    if m is not None and m[0] == "index":
+        # pandas prints "[index]: ..." in every values message; decide the facet ourselves
+        try:
+            same_index = len(val.index) == len(exp.index) and bool((val.index == exp.index).all() or val.index.equals(exp.index))
+        except Exception:  # noqa: BLE001
+            same_index = False
+        if same_index:
+            m = ("values", m[1])
+    if m is not None and m[0] == "columns":
+        try:
+            if sorted(map(str, val.columns)) == sorted(map(str, exp.columns)):
+                m = ("column-order", m[1])
+        except Exception:  # noqa: BLE001
+            pass
     if m is None:
         m = categories_violation(res, val, exp, desc)
     info = {"res": res, "val": val, "exp": exp} if want_value else {}
@@ -279,7 +304,7 @@ def family(klass):
         return "assign"
     if p[0] in ("frame-arith", "frame-cmp"):
         style = "method" if p[2] in ("method", "rmethod") else "operator"
-        return "%s:%s%s" % (p[0], style, ":series-axis0" if p[1] == "series" else "")
+        return "%s:%s" % (p[0], style)
     if p[0] in ("astype", "fillna"):
         return klass if p[0] == "astype" and "category" in klass else p[0]
     if p[0] in ("where", "mask") and len(p) > 1 and p[1] == "frame":
@@ -336,6 +361,8 @@ def shrink(desc, pdf, ddf, opdf, oddf, status, key):
 
 
 def layout_predicate(mini, case, status, key):
+    """any-layout (fails on a single partition too) | npartitions>1 (fails on from_pandas(npartitions=3)) |
+    layout-specific (needs the generated layout: empty partitions / unknown divisions / particular boundaries)"""
     from vf.gen import frames as F
 
     pdf, opdf, oddf = case["pdf"], case["opdf"], case["oddf"]
@@ -351,27 +378,93 @@ def layout_predicate(mini, case, status, key):
                 return "npartitions>1"
     except Exception:  # noqa: BLE001
         pass
-    ddf = case["ddf"]
-    if case["empty_parts"]:
-        return "empty-partition"
-    if not ddf.known_divisions:
-        return "unknown-divisions"
     return "layout-specific"
 
 
+def partitionwise_equal(desc, case, val):
+    """True when the dask value equals pandas applied to every input partition separately (concatenating the
+    non-empty pieces): then the only difference to the whole-frame reference is what pandas itself infers per piece
+    (value-dependent upcasts such as int -> float when a NaN/inf appears)."""
+    import dask
+    import pandas as pd
+
+    from vf.gen import c36_pipelines as P
+    from vf.gen import frames as F
+
+    if desc["uses_other"]:
+        return False
+    try:
+        ddf = case["ddf"]
+        parts = dask.compute(*[ddf.partitions[i] for i in range(ddf.npartitions)], scheduler="sync")
+        outs = [P.apply(desc, p, False) for p in parts]
+        keep = [o for o in outs if len(o)] or outs[:1]
+        pw = pd.concat(keep)
+        return F.compare(val, pw, ordered=True) is None
+    except Exception:  # noqa: BLE001
+        return False
+
+
+_RANK = ("other", "frame-arith", "frame-cmp", "where-frame", "apply", "str", "astype", "fillna", "clip", "isin",
+         "assign", "filter", "series", "rename", "project")
+
+
+# expression classes every program contains: an exception inside them does not name the mechanism by itself
+_GENERIC_OWNERS = {"Projection", "Blockwise", "Elemwise", "Filter", "Assign", "Expr", "Index", "And", "Or", "FromPandas",
+                   "FromMap", "FromDelayed", "Fused", "StringAccessor", "Accessor", "None", "DataFrame", "Series", "FrameBase"}
+
+
+# culprits whose known defect produces a malformed intermediate object (arbitrary downstream symptoms)
+_COLLAPSE = {"frame-cmp:method", "other:assign", "apply:axis1"}
+
+
+def _rank(fam):
+    head = fam.split(":")[0]
+    return _RANK.index(head) if head in _RANK else len(_RANK)
+
+
+def _pred_is_astype(step):
+    return step["op"] in ("filter", "sfilter") and isinstance(step.get("pred"), list) and step["pred"][0] == "astype"
+
+
 def make_label(mini, layout, key):
+    """<culprit>:<layout>:<facet> (value differences) or <culprit>:<exception site>.  culprit = the step of the minimal
+    program with the most structure (second operands > frame-level binary ops / where > apply > astype / fillna / clip
+    / isin > assign > filter > series ops > rename > projection; ties: the later step).  Two input-feature predicates
+    replace the culprit because the wrong intermediate object they produce fails in arbitrary ways downstream:
+    a filter whose predicate is an ``astype`` node, and an ``astype`` step followed by a filter.  Exceptions raised
+    inside the methods of one specific expression class (e.g. ``MethodOperator._simplify_up``) are labelled by that site
+    alone: ``expr-node:ExcType@Class.method``."""
     fams = [family(c) for c in mini["classes"]]
     steps = mini["steps"]
-    idx = [i for i, f in enumerate(fams) if f != "project"] or [0]
-    first = idx[0]
-
-    def named(i):
-        h = expr_heads(steps[i])
-        return fams[i] + ("[%s]" % h if h else "")
-    chain = named(first)
-    if len(fams) - 1 != first:
-        chain += ">" + named(len(fams) - 1)
-    return "%s:%s:%s" % (chain, layout, key)
+    exc = "@" in key or key.startswith("meta-generation")
+    if any(_pred_is_astype(st) for st in steps):
+        return "filter:predicate-is-astype-node:%s" % ("exception" if exc else "wrong-result")
+    ia = [i for i, f in enumerate(fams) if f.split(":")[0] == "astype"]
+    if ia and any(st["op"] in ("filter", "sfilter") for st in steps[ia[0] + 1:]) and \
+            not any(_rank(f) < _rank("astype") for f in fams):
+        return "astype-then-filter:%s" % ("exception" if exc else "wrong-result:" + key)
+    site = key.split("@", 1)[1] if "@" in key else ""
+    if exc and "." in site and ":" not in site and "(" not in site:
+        owner = site.split(".")[0]
+        if owner not in _GENERIC_OWNERS:
+            return "expr-node:%s" % key          # raised inside the methods of one specific expression class
+    best = min(range(len(fams)), key=lambda i: (_rank(fams[i]), -i))
+    if key == "column-order" and "assign" in fams:
+        best = max(i for i, f in enumerate(fams) if f == "assign")
+    fam = fams[best]
+    if fam in _COLLAPSE and not ("@" in key and "." in site and ":" not in site):
+        # one defect, many downstream symptoms (see findings): only exception / wrong-result is kept
+        tag = ":empty-partition" if fam == "apply:axis1" and layout == "layout-specific" else ""
+        if fam != "apply:axis1" or tag:
+            return "%s%s:%s" % (fam, tag, "exception" if exc else "wrong-result")
+    head = fam.split(":")[0]
+    h = None
+    if head == "series" or (head in ("filter", "assign") and len([f for f in fams if f != "project"]) == 1):
+        h = expr_heads(steps[best])
+    culprit = "%s%s" % (fam, "[%s]" % h if h else "")
+    if exc:
+        return "%s:%s" % (culprit, key)          # exceptions: the layout is not part of the mechanism
+    return "%s:%s:%s" % (culprit, layout, key)
 
 
 # --------------------------------------------------------------------------- the case
@@ -445,6 +538,11 @@ def run_case(case, ctx):
                 raise
             mini, layout = desc, "unshrunk"
     label = make_label(mini, layout, key)
+    if status == "neq" and layout != "any-layout" and "val" in info:
+        with warnings.catch_warnings():
+            warnings.simplefilter("ignore")
+            if partitionwise_equal(desc, c, info["val"]):
+                label = "partition-wise-evaluation:value-dependent-result-of-pandas-per-partition:%s" % key
     detail = {"minimal_pipeline": mini["steps"], "full_pipeline": desc["steps"], "index_kind": c["kind"],
               "partitioning": c["pdesc"], "second_operand_partitioning": c["odesc"], "same_rows": c["same"],
               "divisions": list(ddf.divisions), "rows": len(pdf), "case_seed": case["cs"]}
